@@ -51,6 +51,12 @@ def prophyc_cpp(text, workdir, name='sch', full=True, raw=False, python=False, f
         args += ['--cpp_out', gen]
     if python:
         args += ['--python_out', gen]
+    for fn, ftext in sorted((files or {}).items()):
+        # further schema files next to the main one (it may #include them); all are inputs of the same run
+        fp = os.path.join(workdir, fn)
+        with open(fp, 'w') as f:
+            f.write(ftext)
+        args.append(fp)
     args.append(src)
     try:
         nodes = pyrt.run_prophyc(args)
